@@ -71,7 +71,7 @@ def bounded(tier, seed, R):
               'its dependants, (c) as the matching element of every containing range, of a whole-column / whole-row '
               'reference, of a list / tuple / generator of addresses, (d) twice - all must agree with one another and with '
               'a from-scratch compile; also after a set_value history')
-    wbs = W.grammar(rnd, n_wb) + W.cse_grammar(rnd, 8 if not thorough else 24)
+    wbs = W.grammar(rnd, n_wb) + W.cse_grammar(rnd, 8 if not thorough else 24) + W.random_dags(rnd, 4 if not thorough else 40)
     R.bound = f'{len(wbs)} workbooks x 3 origins x orders/paths'
     with W.TmpDir() as tmp:
         for wb in wbs:
